@@ -36,7 +36,7 @@ RULE = ('A: callers 2..3 (4 thorough) x pool_size {1,2,3,None} x idle_timeout {N
         'attempt() calls, client start-up, polling, processing completions and idle expiry x per-request client behaviour '
         '{deliver, fail, deliver-then-die, requeue-and-exit} (<= dd non-default), quiescent states merged.  B: real SMTP and '
         'HTTP relay pools, 2..3 concurrent attempts x pool_size {1,2} x idle_timeout {None,5} x peer faults {refused, 4xx/5xx on '
-        'MAIL, unsolicited 421 after a message, delayed reply}.  Monitors: live clients/connections <= pool_size; every '
+        'MAIL, unsolicited 421 after a message, delayed reply; HTTP: refused, 500, dropped, delayed}.  Monitors: live clients/connections <= pool_size; every '
         'attempt gets the result of its own envelope; at quiescence no request pending and no caller blocked; len(deque) == '
         'semaphore counter; the peer never sees MAIL inside a transaction nor after a failed one without RSET.  Non-trivial '
         '= execution in which two requests overlapped in time.')
@@ -280,6 +280,103 @@ class PoolWorldB(object):
         return (tuple(repr(r['outcome'])[:60] for r in callers), len(peers), tuple(sorted(set(v[0] for v in self.viol))))
 
 
+# ------------------------------------------------------------------ layer H (HTTP relay pool)
+class PoolWorldH(object):
+    def __init__(self, ch, cfg):
+        self.ch, self.cfg = ch, cfg
+        self.viol = []
+        self.overlap = False
+
+    def run(self):
+        import slimta.http as shttp
+        from slimta.relay.http import HttpRelay
+        from fakes.fakehttp import HttpPeer, response
+        cfg, ch = self.cfg, self.ch
+        # an idle HttpRelayClient polls for ever: stop firing timers after 40 virtual seconds
+        with World(ch, max_steps=4000, horizon=40.0) as w:
+            net = Net(w)
+            peers = []
+            accepted = []
+
+            def create_connection(addr, timeout=None, source_address=None):
+                if cfg.get('faults') and ch.choose(2, 'connect', 'data') == 1:
+                    raise _socket.error(111, 'Connection refused')
+                c, s_ = net.pair(peername=addr)
+                if cfg['pool_size'] and len(net.open) > cfg['pool_size']:
+                    self.viol.append(('pool-size-exceeded', '%d open connections, pool_size %r' % (len(net.open), cfg['pool_size'])))
+
+                def responder(req, k):
+                    import base64
+                    sender = base64.b64decode(dict(req['headers'])['X-Envelope-Sender']).decode()
+                    f = ch.choose(3, 'http-status', 'data') if cfg.get('faults') else 0
+                    if cfg.get('delays') and ch.choose(2, 'delay-response', 'sched') == 1:
+                        w.env_wait('origin-replies-%s' % sender)
+                    if f == 0:
+                        accepted.append(sender)
+                        return response(200, 'OK', [('X-Smtp-Reply', '250; message="2.0.0 ok for %s"' % sender)])
+                    if f == 1:
+                        return response(500, 'Internal Server Error', [('X-Smtp-Reply', '451; message="4.0.0 busy for %s"' % sender)], b'oops')
+                    return 'drop'
+                p = HttpPeer(s_, responder)
+                peers.append(p)
+                gevent.spawn(p.run)
+                return c
+            w.patch(shttp, 'socket', types.SimpleNamespace(create_connection=create_connection))
+            relay = HttpRelay('http://mx.test:8025/deliver', pool_size=cfg['pool_size'], ehlo_as='relay.test', timeout=9.0,
+                              idle_timeout=cfg.get('idle_timeout'))
+            callers = []
+            inflight = [0]
+            for i in range(cfg['callers']):
+                rec = {'i': i, 'sender': 's%d@x' % i, 'outcome': None, 'started': False, 'env': make_envelope(i, 1)}
+                callers.append(rec)
+
+                def call(rec=rec):
+                    rec['started'] = True
+                    inflight[0] += 1
+                    if inflight[0] > 1:
+                        self.overlap = True
+                    try:
+                        rec['outcome'] = ('returned', relay.attempt(rec['env'], 0))
+                    except gevent.GreenletExit:
+                        raise
+                    except BaseException as e:
+                        rec['outcome'] = ('raised', e)
+                    finally:
+                        inflight[0] -= 1
+                w.add_event('caller%d' % i, lambda call=call: gevent.spawn(call))
+            w.loop.state_key = lambda: (
+                tuple(e.label for e in w.loop.env_events), tuple(sorted(round(t.due - w.loop._now, 6) for t in w.loop._timers)),
+                len(relay.queue), len(relay.pool), tuple(sorted(c.idle for c in relay.pool)), len(net.open),
+                tuple((r['started'], repr(r['outcome'])[:50]) for r in callers), tuple(len(p.requests) for p in peers), len(self.viol))
+
+            def inv(kind, label):
+                if len(relay.queue) != relay.queue.sema.counter:
+                    self.viol.append(('deque-semaphore-mismatch', 'len(deque)=%d semaphore=%d' % (len(relay.queue), relay.queue.sema.counter)))
+                if cfg['pool_size'] and len(relay.pool) > cfg['pool_size']:
+                    self.viol.append(('pool-size-exceeded', '%d clients, pool_size %r' % (len(relay.pool), cfg['pool_size'])))
+            w.loop.on_step = inv
+            w.run_until_quiescent()
+            inv(None, None)
+            if len(relay.queue) > 0:
+                self.viol.append(('request-stranded', '%d request(s) left in the deque at the horizon' % len(relay.queue)))
+            for r in callers:
+                if r['started'] and r['outcome'] is None:
+                    self.viol.append(('caller-blocked-forever', 'attempt() of %s never returned' % r['sender']))
+                elif r['outcome'] is not None:
+                    kind, val = r['outcome']
+                    if kind == 'returned':
+                        if not (isinstance(val, Reply) and ('for ' + r['sender']) in (val.message or '')):
+                            self.viol.append(('result-of-another-request', 'attempt() of %s returned %r' % (r['sender'], val)))
+                        if r['sender'] not in accepted:
+                            self.viol.append(('delivered-but-not-accepted', 'attempt() of %s reports success, the origin never accepted it' % r['sender']))
+                    elif not isinstance(val, RelayError):
+                        self.viol.append(('non-relay-exception', 'attempt() of %s raised %r' % (r['sender'], val)))
+                    elif ('for ' in str(val.reply)) and ('for ' + r['sender']) not in str(val.reply):
+                        self.viol.append(('result-of-another-request', 'attempt() of %s raised %r' % (r['sender'], val.reply)))
+            self.errors = [e for e in w.errors() if e[0] not in ('RemoteDisconnected', 'ConnectionRefusedError', 'OSError')]
+        return (tuple(repr(r['outcome'])[:60] for r in callers), len(peers), tuple(sorted(set(v[0] for v in self.viol))))
+
+
 def configs(tier, seed):
     q = tier == 'quick'
     cfgs = []
@@ -294,12 +391,13 @@ def configs(tier, seed):
                 cfgs.append({'layer': 'B', 'callers': callers, 'pool_size': ps, 'idle_timeout': it, 'faults': True, 'delays': callers == 2,
                              'd': 1 if q else 2, 'dd': 2})
                 cfgs.append({'layer': 'B', 'callers': callers, 'pool_size': ps, 'idle_timeout': it, 'faults': False, 'd': 2 if q else 3, 'dd': 0})
+                cfgs.append({'layer': 'H', 'callers': callers, 'pool_size': ps, 'idle_timeout': it, 'faults': True, 'delays': callers == 2, 'd': 1 if q else 2, 'dd': 2})
     return cfgs
 
 
 def run_one(cfg, ch):
     wcfg = {k: v for k, v in cfg.items() if k not in ('d', 'dd', 'layer')}
-    pw = (PoolWorldA if cfg['layer'] == 'A' else PoolWorldB)(ch, wcfg)
+    pw = {'A': PoolWorldA, 'B': PoolWorldB, 'H': PoolWorldH}[cfg['layer']](ch, wcfg)
     obs = pw.run()
     return pw, obs
 
